@@ -18,14 +18,35 @@
 (* writes nothing.  The MEANING (what must hold whatever the grain) is in the         *)
 (* properties below; TLC checks them on every behaviour of length <= MaxLen and       *)
 (* EmitState prints every behaviour for the replay on the real code (binding M1).     *)
+(*                                                                                *)
+(* OPTIONS.  An option set is a *valuation as passed by the caller* (a kwargs dict: *)
+(* an option may be absent, explicitly equal to its default, falsy -- 0, 0.0, False  *)
+(* --, None, or another value).  Eff[d][o] is the class of the network that a fresh   *)
+(* parse of map content d under option set o yields (measured by the harness: two     *)
+(* option sets are equivalent on a map iff the parsed networks are indistinguishable  *)
+(* in structure, geometry, lookups and the option-dependent observables).  The cache  *)
+(* may be used ONLY if the file digest matches and the FULL option valuation is       *)
+(* equivalent (HitOnlyWhenAllMatch, FreshNetwork use Eff); it MUST be used when the   *)
+(* caller passes the very same option set again (HitWhenAllMatch).  In between (a     *)
+(* different spelling of an equivalent valuation, e.g. {} and {tolerance: 0.05}) the   *)
+(* code may hit or parse: Load below parses, as the code does, and the replay accepts  *)
+(* a hit that returns the right network (don't-care).                                  *)
+(* Two shapes of behaviours: Pairs = FALSE -- every action sequence up to MaxLen over  *)
+(* a few option sets; Pairs = TRUE -- over the WHOLE option universe, the sequences     *)
+(*   SetOptions(o1); Load(no cache, write or not); Idle | EditMap | BumpVersion |        *)
+(*   CorruptCache; SetOptions(o2); Load(use cache, write)                                *)
+(* i.e. every ordered pair of option sets with the cache present / absent / stale /      *)
+(* corrupt in between.                                                                   *)
 EXTENDS Integers, Sequences, FiniteSets, TLC, Json
 
 CONSTANTS MaxLen,      \* bound on the number of actions
           NMaps,       \* map contents 1..NMaps (EditMap cycles through them)
           NOpts,       \* option sets 1..NOpts
           Kinds,       \* ways to corrupt the cache file (strings, meaningful to the harness)
-          AsImplemented \* FALSE: the ideal protocol, replayed on the code.  TRUE: adds the named
-                        \* as-implemented deviation "corrupt-cache-served" below
+          AsImplemented, \* FALSE: the ideal protocol, replayed on the code.  TRUE: adds the named
+                         \* as-implemented deviation "corrupt-cache-served" below
+          Pairs,         \* FALSE: free action sequences; TRUE: ordered pairs of option sets (see above)
+          Eff            \* Eff[d][o]: class of the network parsed from map content d under option set o
 
 VARIABLES mapD, opt, ver, cache, last, hist
 vars == <<mapD, opt, ver, cache, last, hist>>
@@ -52,25 +73,36 @@ Load(u, w) ==
               net |-> IF hit THEN cache.c ELSE <<mapD, opt>>,      \* what the caller gets
               cur |-> <<mapD, opt>>, use |-> u, write |-> w]
   /\ cache' = IF ~hit /\ w THEN Valid(mapD, opt, ver) ELSE cache
-  /\ hist' = Append(hist, [a |-> "Load", use |-> u, write |-> w, kind |-> ""])
+  /\ hist' = Append(hist, [a |-> "Load", use |-> u, write |-> w, kind |-> "", o |-> 0])
   /\ UNCHANGED <<mapD, opt, ver>>
 
 EditMap ==
   /\ NMaps > 1
   /\ mapD' = (mapD % NMaps) + 1
-  /\ hist' = Append(hist, [a |-> "EditMap", use |-> FALSE, write |-> FALSE, kind |-> ""])
+  /\ hist' = Append(hist, [a |-> "EditMap", use |-> FALSE, write |-> FALSE, kind |-> "", o |-> 0])
   /\ UNCHANGED <<opt, ver, cache, last>>
 
 ChangeOptions ==
   /\ NOpts > 1
   /\ opt' = (opt % NOpts) + 1
-  /\ hist' = Append(hist, [a |-> "ChangeOptions", use |-> FALSE, write |-> FALSE, kind |-> ""])
+  /\ hist' = Append(hist, [a |-> "ChangeOptions", use |-> FALSE, write |-> FALSE, kind |-> "", o |-> 0])
   /\ UNCHANGED <<mapD, ver, cache, last>>
+
+\* pairs mode: the caller passes option set o from now on (any o, also the current one)
+SetOptions(o) ==
+  /\ opt' = o
+  /\ hist' = Append(hist, [a |-> "SetOptions", use |-> FALSE, write |-> FALSE, kind |-> "", o |-> o])
+  /\ UNCHANGED <<mapD, ver, cache, last>>
+
+\* pairs mode: nothing happens between the two loads (the cache stays as the first load left it)
+Idle ==
+  /\ hist' = Append(hist, [a |-> "Idle", use |-> FALSE, write |-> FALSE, kind |-> "", o |-> 0])
+  /\ UNCHANGED <<mapD, opt, ver, cache, last>>
 
 CorruptCache(kind) ==
   /\ cache.k = "valid"
   /\ cache' = Corrupt(kind)
-  /\ hist' = Append(hist, [a |-> "CorruptCache", use |-> FALSE, write |-> FALSE, kind |-> kind])
+  /\ hist' = Append(hist, [a |-> "CorruptCache", use |-> FALSE, write |-> FALSE, kind |-> kind, o |-> 0])
   /\ UNCHANGED <<mapD, opt, ver, last>>
 
 \* AS-IMPLEMENTED deviation "corrupt-cache-served".  fromPickle unpickles straight from the gzip
@@ -84,19 +116,25 @@ CorruptCache(kind) ==
 DamageBody ==
   /\ AsImplemented /\ cache.k = "valid"
   /\ cache' = [cache EXCEPT !.k = "damaged", !.c = <<0, 0>>]
-  /\ hist' = Append(hist, [a |-> "DamageBody", use |-> FALSE, write |-> FALSE, kind |-> "bitflip"])
+  /\ hist' = Append(hist, [a |-> "DamageBody", use |-> FALSE, write |-> FALSE, kind |-> "bitflip", o |-> 0])
   /\ UNCHANGED <<mapD, opt, ver, last>>
 
 \* the code is upgraded (or downgraded) to another pickle format version
 BumpVersion ==
   /\ ver' = 3 - ver
-  /\ hist' = Append(hist, [a |-> "BumpVersion", use |-> FALSE, write |-> FALSE, kind |-> ""])
+  /\ hist' = Append(hist, [a |-> "BumpVersion", use |-> FALSE, write |-> FALSE, kind |-> "", o |-> 0])
   /\ UNCHANGED <<mapD, opt, cache, last>>
 
-Next == \/ \E u, w \in BOOLEAN : Load(u, w)
-        \/ EditMap \/ ChangeOptions \/ BumpVersion
-        \/ \E kind \in Kinds : CorruptCache(kind)
-        \/ DamageBody
+FreeNext == \/ \E u, w \in BOOLEAN : Load(u, w)
+            \/ EditMap \/ ChangeOptions \/ BumpVersion
+            \/ \E kind \in Kinds : CorruptCache(kind)
+            \/ DamageBody
+Pos == Len(hist) + 1
+PairsNext == \/ Pos \in {1, 4} /\ \E o \in 1..NOpts : SetOptions(o)
+             \/ Pos = 2 /\ \E w \in BOOLEAN : Load(FALSE, w)
+             \/ Pos = 3 /\ (Idle \/ EditMap \/ BumpVersion \/ \E kind \in Kinds : CorruptCache(kind))
+             \/ Pos = 5 /\ Load(TRUE, TRUE)
+Next == IF Pairs THEN PairsNext ELSE FreeNext
 
 Spec == Init /\ [][Next]_vars
 Bounded == Len(hist) <= MaxLen
@@ -111,12 +149,13 @@ IsLoadStep == Len(hist') = Len(hist) + 1 /\ hist'[Len(hist')].a = "Load"
 \* whatever was loaded -- from the cache or by parsing -- is the network of the CURRENT map
 \* content under the CURRENT options ("equivalent to one parsed from the map"; a stale cache is
 \* never served)
-FreshNetwork == last.outcome # "none" => last.net = last.cur
-\* a cache HIT happens only when version, map digest and options digest all match
+SameNet(a, b) == a[1] = b[1] /\ a[1] \in 1..NMaps /\ Eff[a[1]][a[2]] = Eff[b[1]][b[2]]
+FreshNetwork == last.outcome # "none" => SameNet(last.net, last.cur)
+\* a cache HIT happens only when version, map digest and the full option valuation all match
 HitOnlyWhenAllMatch ==
   [][(IsLoadStep /\ last'.outcome = "hit") =>
         /\ last'.use /\ cache.k = "valid"
-        /\ cache.v = ver /\ cache.d = mapD /\ cache.o = opt]_vars
+        /\ cache.v = ver /\ cache.d = mapD /\ Eff[mapD][cache.o] = Eff[mapD][opt]]_vars
 \* ... and (documentation of useCache: "use a cached version of the map, if one exists and
 \* matches") it does happen then
 HitWhenAllMatch ==
